@@ -35,11 +35,16 @@ for sid in sorted(os.listdir(ROOT + '/seeded')):
     meta = {'property': pid, 'seed': sid, 'summary': am.get('summary'), 'needs_to_manifest': am.get('needs_to_manifest'),
             'files_changed': am.get('files_changed'), 'demo': conf.get('demo') or am.get('demo_cmd'),
             'confirmed': {'demo_rc_with_patch': conf.get('demo_rc_with_patch'), 'demo_rc_without_patch': conf.get('demo_rc_without_patch'),
-                          'suite': conf.get('suite'), 'how': 'tools/confirm_seed.sh: fresh worktree of the pinned commit, demo with and without the patch, full suite with the patch'},
+                          'suite': conf.get('suite'),
+                          'how': ('tools/confirm_seed2.sh: fresh worktree of the HEAD of /repo (hooks and fixes included), demo with and without the patch, full suite with the patch'
+                                  if conf.get('base') else
+                                  'tools/confirm_seed.sh: fresh worktree of the pinned commit, demo with and without the patch, full suite with the patch')},
             'ran': [f'./check {r["check"]} --repo <scratch copy of /repo/kopf with patch.diff applied> --tier quick -> exit {r["exit"]}, '
                     f'{r["violations"]} violation(s){"; " + r["first"] if r["first"] else ""}' for r in results],
             'caught_by': caught}
     json.dump(meta, open(sd + '/meta.json', 'w'), indent=1)
     rows.append((sid, caught, results))
     print(sid, 'caught by', caught or 'NOTHING', '|', results[-1]['first'][:100] if caught else '', flush=True)
-json.dump([{'seed': s, 'caught_by': c} for s, c, _ in rows], open(ROOT + '/seeded/MATRIX.json', 'w'), indent=1)
+old = {r['seed']: r for r in json.load(open(ROOT + '/seeded/MATRIX.json'))} if os.path.exists(ROOT + '/seeded/MATRIX.json') else {}
+old.update({s: {'seed': s, 'caught_by': c} for s, c, _ in rows})
+json.dump([old[k] for k in sorted(old)], open(ROOT + '/seeded/MATRIX.json', 'w'), indent=1)
